@@ -97,6 +97,27 @@ func Hist(name string) *ref.History {
 				txDelete(1600000020, t, 23, 1, "bob"),
 				[]*ref.AEvent{ref.Q(1600000030, "db1", "BEGIN"), ref.TM(1600000030, t)})},
 		}}
+	case "H3":
+		// unusual file names and offsets around 2^31 and up to 2^32-1 (C07)
+		long := make([]byte, 255)
+		for i := range long {
+			long[i] = 'a' + byte(i%26)
+		}
+		n1, n2, n3 := string(long), "bin log \xe4\xba\x8c.000002", "a"
+		h = &ref.History{Cfg: cfg, Files: []*ref.File{
+			{Name: n1, Base: 1<<31 - 150, Events: cat(
+				txInsert(1600000000, t, 21, 1, "alice"),
+				[]*ref.AEvent{ref.Rot(1600000015, n2)})},
+			{Name: n2, Events: cat(
+				txUpdate(1600000010, t, 22, 1, "alice", "bob"),
+				[]*ref.AEvent{ref.Rot(1600000016, n3)})},
+			{Name: n3, Events: cat(txDelete(1600000020, t, 23, 1, "bob"))},
+		}}
+		h.Layout()
+		// place the second file so that its last event ends exactly at 2^32-1
+		f := h.Files[1]
+		size := f.Events[len(f.Events)-1].End - f.Events[0].Pos
+		f.Base = 1<<32 - 1 - size
 	case "H8":
 		h = hist8(cfg)
 	default:
